@@ -23,6 +23,7 @@ TIERS = {
     "thorough": dict(executions=2500, sim_num=150, sim_depth=60, tlc_timeout=3400, mc_cfg="MCRtrSocket_big.cfg"),
 }
 RELEVANT = {
+    "C04": lambda e: e["e"] in ("recv", "rfault", "hang"),
     "C03": lambda e: e["e"] == "recv" and e["f"]["t"] == "eod" or e["e"] == "rfault",
     "C05": lambda e: e["e"] == "send" and e["t"] in ("reset_query", "serial_query"),
     "C07": lambda e: e["e"] in ("open", "stop"),
@@ -48,12 +49,98 @@ def build(pid, flavour="asan"):
     return vlib.build_harness(pid, flavour, ["fsm_harness.c"], objs, wraps=["sleep", "lrtr_get_monotonic_time"])
 
 
+def projection(trace):
+    """What a run did, without anything that depends on how the stream was cut into reads."""
+    out = []
+    for e in vlib.read_ndjson(trace):
+        k = e["e"]
+        if k in ("recv",):
+            out.append((k, e["f"]["raw"], e["full"]))
+        elif k in ("send", "sendbad", "sendfail"):
+            out.append((k, e.get("t"), e.get("code"), e.get("enc"), e.get("sn"), tuple(e.get("my", []))))
+        elif k in ("state", "open", "stop", "sleep"):
+            out.append((k, e.get("s"), e.get("rc"), e.get("sec"), tuple(e.get("my", []))))
+        elif k in ("pfxcb", "spkicb"):
+            out.append((k, e["add"], e["r"]))
+        elif k in ("rfault", "close", "hang", "reset"):
+            out.append((k, e.get("kind")))
+    return out
+
+
+def run_c04(ctx, verdict, wd, P):
+    """Hostile byte streams, assertions enabled (asan-assert flavour: ASan + UBSan fatal, -UNDEBUG), every stream
+    delivered byte by byte and in random chunks; both runs must be accepted with identical outcomes."""
+    pid, seed = ctx.pid, ctx.seed
+    exe = build(pid, "asan-assert")
+    tc = TraceChecker(ctx, verdict, wd, "RtrSocketTrace", "RtrSocketTrace.cfg", "OK_C04", timeout=P["tlc_timeout"])
+    scripts = []
+    sh = os.path.join(wd, "script_hostile.ndjson")
+    fsmgen.write_hostile_script(sh, seed, P["executions"])
+    scripts.append(("H", sh))
+    sb = os.path.join(wd, "script_conv.ndjson")
+    fsmgen.write_script(sb, seed, max(20, P["executions"] // 3))
+    scripts.append(("B", sb))
+    if ctx.replay:
+        meta = json.load(open(os.path.join(ctx.replay, "meta.json")))
+        scripts = [("replay", os.path.join(ctx.replay, os.path.basename(meta["script"])))]
+    cov = {"runs": []}
+    evs_all = []
+    for tag, sc in scripts:
+        projs = {}
+        for ch in ("1", "-1"):
+            trace = os.path.join(wd, "trace%s_%s.ndjson" % (tag, "byte" if ch == "1" else "rand"))
+            env = dict(vlib.SAN_ENV, VH_CHUNK=ch, VH_ALARM="900", UBSAN_OPTIONS="print_stacktrace=1:halt_on_error=1")
+            rc, out = vlib.sh([exe, sc, trace], env=env, timeout=1000)
+            meta = {"mode": "script", "script": sc, "seed": seed, "chunk": ch}
+            if rc != 0:
+                mpath = os.path.join(wd, "meta.json")
+                json.dump(meta, open(mpath, "w"))
+                rp = vlib.save_replay(pid, "%s-crash-seed%d" % (tag, seed), [mpath, sc])
+                m = [l for l in out.splitlines() if "SUMMARY:" in l or "Assertion" in l or "runtime error" in l]
+                sig = (m[0] if m else out[-200:]).strip()[:160]
+                verdict.deviation("C04:%s" % ("hang" if rc == 3 else "abort"), "client ended with exit %d under hostile stream (chunk mode %s): %s" % (rc, ch, sig), rp)
+                continue
+            tc.validate(trace, tag + ch, meta, [sc])
+            projs[ch] = projection(trace)
+            evs_all += vlib.read_ndjson(trace)
+        if len(projs) == 2 and projs["1"] != projs["-1"]:
+            i = next(k for k in range(min(len(projs["1"]), len(projs["-1"]))) if projs["1"][k] != projs["-1"][k]) if \
+                any(a != b for a, b in zip(projs["1"], projs["-1"])) else min(len(projs["1"]), len(projs["-1"]))
+            mpath = os.path.join(wd, "meta.json")
+            json.dump({"mode": "script", "script": sc, "seed": seed}, open(mpath, "w"))
+            rp = vlib.save_replay(pid, "%s-chunking-seed%d" % (tag, seed), [mpath, sc])
+            verdict.deviation("C04:chunking-changes-outcome", "byte-wise and random chunking diverge at projected event %d: %s vs %s"
+                              % (i, str(projs["1"][i:i + 1])[:200], str(projs["-1"][i:i + 1])[:200]), rp)
+        cov["runs"].append({"script": os.path.basename(sc), "chunkings": ["byte-at-a-time", "random"],
+                            "projected_events": len(projs.get("1", []))})
+    return tc, cov, evs_all
+
+
 def run(ctx):
     pid, tier, seed = ctx.pid, ctx.tier, ctx.seed
     P = TIERS[tier]
     t0 = time.time()
     verdict = vlib.Verdict(pid)
     wd = vlib.mkdir(os.path.join(vlib.BUILD, pid), clean=True)
+    if pid == "C04":
+        tc, cov, evs = run_c04(ctx, verdict, wd, P)
+        if ctx.replay:
+            return verdict.finish()
+        rel = [e for e in evs if RELEVANT[pid](e)]
+        hostile = [e for e in rel if e["e"] != "recv" or e["f"].get("t") in ("unknown", "error", "raw") or not e.get("full")
+                   or e["f"]["len"]["n"] not in (8, 12, 20, 24, 32, 123)]
+        rcode = verdict.finish()
+        vlib.write_evidence(pid, tier, seed, "exploration", {
+            "evaluations": len(rel), "distinct_nontrivial": len({vlib.digest(slim(e)) for e in hostile}),
+            "rule": "frames / transport faults delivered to the real client (asan-assert build: ASan, UBSan fatal, assertions on) under two chunkings; non-trivial = malformed, unknown-type, Error Report, truncated or partially consumed frame; every trace validated by RtrSocketTrace.tla with OK_C04 (no hang, tables and callbacks change only as the envelope predicts)",
+            "samples": [slim(e) for e in hostile[:3]], "traces_validated_against_impl": tc.traces, "events_validated": tc.events,
+            "explanation": "TLA+ decides the outcome function (well-formedness classes, never applied, exchange fails); memory safety, assertions and termination are decided by the sanitizer build and the harness watchdog",
+            "detail": cov,
+        }, time.time() - t0, len(verdict.violations), [
+            "finite seeded sample of streams; sanitizers (ASan/UBSan without the alignment check) and assertions as instruments",
+            "streams stay framed for the harness (a frame's bytes match its length field when 8..4000), other length values make the client give up after the header",
+        ])
+        return rcode
     exe = build(pid)
     inv = "OK_" + pid
     tc = TraceChecker(ctx, verdict, wd, "RtrSocketTrace", "RtrSocketTrace.cfg", inv, timeout=P["tlc_timeout"])
